@@ -89,6 +89,20 @@ def run(tier, argv):
         bad.append({"part": "validation-position", "what": m["at"], "content": list(m["doc"].encode()), "pos": m["want_pos"], "want": str(m["want_pos"]),
                     "got": json.dumps(m["got"])[:160], "schema": m["schema"]})
     tests += sp["located_violations"]
+    # (ii') one rule broken by one value (bound, length, enum, pattern, item count) at the root, in objects and in arrays
+    docs2, cases2, nd2, nc2 = semcommon.generate(work, rep, "GenErrPosRules", "GenErrPosRules.cfg", None, "posrules")
+    pm2 = work.path("posmism2.ndjson")
+    p = vlib.run_harness(hbin, ["c17pos", "-docs", docs2, "-cases", cases2, "-out", pm2], timeout=600)
+    if p.returncode != 0:
+        raise vlib.Infra("c17pos (rules) failed: " + p.stderr.decode()[-2000:])
+    sp2 = semcommon.summary_of(p.stderr)
+    if sp2["located_violations"] != nc2:
+        raise vlib.Infra("rule positions: %d of %d cases were run (a fixture schema is rejected by Check)" % (sp2["located_violations"], nc2))
+    rep.notes["rule_violation_positions"] = sp2
+    for m in vlib.read_ndjson(pm2):
+        bad.append({"part": "validation-position", "what": m["at"] + " (rule)", "content": list(m["doc"].encode()), "pos": m["want_pos"], "want": str(m["want_pos"]),
+                    "got": json.dumps(m["got"])[:160], "schema": m["schema"]})
+    tests += sp2["located_violations"]
     rep.cov["evaluations"] = n + tests
     rep.cov["distinct_nontrivial"] = n + tests
     rep.cov["traces_validated_against_impl"] = n + tests
